@@ -5,7 +5,7 @@
 //
 // It is deliberately dumb: execute, canonicalise, print.  Canonicalisation never uses
 // arr.ai's own Less/Equal/Count/Has (they are under test).
-package main
+package hlib
 
 import (
 	"bufio"
@@ -18,11 +18,13 @@ import (
 	"time"
 )
 
-type runner func(payload []string) string
+// Runner executes one case and returns its observable.
+type Runner func(payload []string) string
 
-var runners = map[string]runner{}
+var runners = map[string]Runner{}
 
-func register(kind string, r runner) { runners[kind] = r }
+// Register adds a harness operation.
+func Register(kind string, r Runner) { runners[kind] = r }
 
 func unesc(s string) string {
 	if !strings.Contains(s, "\\") {
@@ -55,7 +57,8 @@ func esc(s string) string {
 }
 
 // firstFrame extracts the innermost arr-ai/arrai frame of the current panic's stack.
-func firstFrame() string {
+// FirstFrame extracts the innermost arr-ai/arrai frame of the current stack.
+func FirstFrame() string {
 	buf := make([]byte, 1<<16)
 	buf = buf[:runtime.Stack(buf, false)]
 	for _, line := range strings.Split(string(buf), "\n") {
@@ -79,7 +82,7 @@ func runOne(kind string, payload []string, timeout time.Duration) (res string) {
 	go func() {
 		defer func() {
 			if p := recover(); p != nil {
-				done <- "panic:" + firstFrame() + ":" + strings.SplitN(fmt.Sprint(p), "\n", 2)[0]
+				done <- "panic:" + FirstFrame() + ":" + strings.SplitN(fmt.Sprint(p), "\n", 2)[0]
 			}
 		}()
 		done <- r(payload)
@@ -92,7 +95,8 @@ func runOne(kind string, payload []string, timeout time.Duration) (res string) {
 	}
 }
 
-func main() {
+// Main reads cases from stdin and prints "id<TAB>observable" lines.
+func Main() {
 	workers := runtime.NumCPU()
 	timeout := 10 * time.Second
 	if s := os.Getenv("HARNESS_TIMEOUT_MS"); s != "" {
